@@ -174,7 +174,11 @@ Inductive op :=
 | OCopy (h : nat) (path : list name_t)                        (* new handle = copy.copy(node) *)
 | OSelect (h : nat) (path : list name_t) (keys : list name_t) (* new handle = node[tuple] *)
 | OAttr (h : nat) (path : list name_t) (k : chars) (v : N)
-| OData (h : nat) (path : list name_t) (d : N).
+| OData (h : nat) (path : list name_t) (d : N)
+| OMove (h : nat) (path : list name_t) (h2 : nat).           (* node[root2.name] = root2 itself; the handle is given up *)
+
+(* what a handle holds after its object was moved into another tree *)
+Definition moved : node := NStruct KStructure (s2l "moved") [s2l "moved"] [] [] [].
 
 Fixpoint set_nth {A} (i : nat) (x : A) (l : list A) : list A :=
   match l, i with
@@ -199,6 +203,11 @@ Definition step (st : list node) (o : op) : list node :=
     | OSelect h p keys => do r <- nth_error st h; do n <- node_at p r; do s <- select n keys; Some (st ++ [s])
     | OAttr h p k v => upd_root st h p (fun n => set_attr n k v)
     | OData h p d => upd_root st h p (fun n => set_data n d)
+    | OMove h p h2 =>
+        if Nat.eqb h h2 then None
+        else do src <- nth_error st h2;
+             do st1 <- upd_root st h p (fun n => setitem n (nname src) src);
+             Some (set_nth h2 moved st1)
     end in
   match res with Some st' => st' | None => st end.
 
